@@ -101,10 +101,13 @@ CLAIMS = {
     "C13": dict(category="other", design_ref="DESIGN.md 5/C13",
         text="Structural proof on the resolved MIR of the per-line loop: every non-unwind loop exit is traced to its "
         "controlling call and must be exhaustion of a reviewed line-source pipeline (no content-dependent truncation) "
-        "or a pure std I/O error; every mutation of loop-carried state is dominated by the three accept gates. "
+        "or a pure std I/O error (iterator style and read_until style loops); every mutation of loop-carried state is dominated "
+        "by the three accept gates (helpers on the way are inlined; a read buffer reset at the loop head is not carried state); "
+        "and rejecting a line cannot panic: in every junk-line context of E2 (digit counts 0..64, DF/length mismatch) all "
+        "obligations of the gate are discharged and the line is used only through reviewed digit projections. "
         "Does not decide memory use on huge lines.",
         note=TB + "source/adapter table (lines/read_line: Err on invalid UTF-8; split/read_until: I/O only).",
-        technique="CFG loop-exit classification + edge-cut dominance over resolved MIR"),
+        technique="CFG loop-exit classification + edge-cut dominance over resolved MIR (with helper inlining); abstract interpretation of the gate on junk-line contexts"),
     "C14": dict(category="other", design_ref="DESIGN.md 5/C14",
         text="Proof, exhaustive over the 32 flag sets and all filled/blank paths, without formatting a string: per flag set the "
         "row writer's CFG is pruned, write! templates (expanded AST) give each site's minimum width, min and max path totals coincide "
